@@ -119,6 +119,23 @@ def c02(tr, cx):
             if nd['ned'] < s['t']:
                 tr.v('C02', 'scheduled_in_past', (k, s['t'], nid, nd['ned'], nd['net'], s['evnode'], s['evtype']))
         if s['arr_ned'] < s['t']: tr.v('C02', 'arrival_scheduled_in_past', (k, s['t'], s['arr_ned']))
+    # dates carried by customers still in the system: a started service ends at or after its start; once a customer has
+    # finished service and is blocked, its end-of-service date lies in the past and no longer changes
+    frozen = {}
+    for k, s in enumerate(tr.snaps):
+        seen = set()
+        for nid, nd in s['nodes'].items():
+            for i in nd['inds']:
+                if i['ssd'] is not False and i['sed'] is not False and i['id'] not in nd['intr']:
+                    tr.count('C02.in_service_dates')
+                    if i['sed'] < i['ssd']: tr.v('C02', 'service_end_before_start_in_state', (k, s['t'], nid, i['id'], str(i['ssd']), str(i['sed'])))
+                if i['blocked'] and i['sed'] is not False:
+                    key = (nid, i['id'], i['arr']); seen.add(key)
+                    if i['sed'] > s['t']: tr.v('C02', 'blocked_before_end_of_service', (k, s['t'], nid, i['id'], str(i['sed'])))
+                    if key in frozen and frozen[key] != i['sed']:
+                        tr.v('C02', 'blocked_customer_end_date_changed', (k, s['t'], nid, i['id'], str(frozen[key]), str(i['sed'])))
+                    frozen.setdefault(key, i['sed'])
+        for key in [x for x in frozen if x not in seen]: del frozen[key]
     tend = max([s['t'] for s in tr.snaps])
     for cid, r in cx['records']:
         rt = r.record_type
@@ -1143,7 +1160,7 @@ def c14(tr, cx):
         rejected = set(); baulked = set()
         flag_comp = 0
         for E, inner in groups_of(tr):
-            released_out = set(e[3] for e in inner if e[0] == 'release' and e[4] == -1 and not e[5])
+            released_out = set(e[3] for e in inner if e[0] == 'release' and e[4] == -1)   # a reroute to the exit ends the journey too
             for e in inner:
                 if e[0] == 'exit':
                     fini += 1
@@ -1168,7 +1185,7 @@ def c14(tr, cx):
         # the exit node's counters agree with the transfer log whatever the run method
         comp2 = 0
         for E, inner in groups_of(tr):
-            out_ = set(e[3] for e in inner if e[0] == 'release' and e[4] == -1 and not e[5])
+            out_ = set(e[3] for e in inner if e[0] == 'release' and e[4] == -1)
             comp2 += sum(1 for e in inner if e[0] == 'exit' and e[2] in out_)
         tr.count('C14.completed_counter_checks')
         if last['exit_completed'] != comp2: tr.v('C14', 'completed_counter_differs_from_transfer_log', (last['exit_completed'], comp2))
